@@ -91,6 +91,11 @@ func harnessTT(tree, maxDepth int, size uint64, k int) {
 	}
 	// the same position searched again with the table kept
 	checkSearch(b, tt, maxDepth, ev, "repeated search")
+	// shallower searches on the table filled by the deeper ones (iterative deepening of a
+	// later move restarts at depth 1 and meets positions stored at greater depth)
+	for d := 1; d < maxDepth; d++ {
+		checkSearch(b, tt, d, ev, "shallower re-search")
+	}
 	if !ttQuiescence {
 		checkLog(ev)
 	}
@@ -162,3 +167,7 @@ func harnessTTQuiet(i, maxDepth int, size uint64) {
 func Harness_C11_Q0() { harnessTTQuiet(0, 2, 4096) }
 func Harness_C11_Q1() { harnessTTQuiet(1, 2, 4096) }
 func Harness_C11_Q0_S1() { harnessTTQuiet(0, 1, 32) }
+
+func Harness_C11_T1_S128() { harnessTT(1, 2, 4096, 2) }
+func Harness_C11_T4_D2()   { harnessTT(4, 2, 4096, 2) }
+func Harness_C11_T2_S2()   { harnessTT(2, 2, 64, 2) }
